@@ -134,7 +134,7 @@ Fixpoint dispatch_find (t : list (string * bool * string)) (arch : string) (rela
   | [] => gen_dispatch_default
   | (a, r, o) :: rest => if (a =? arch)%string && Bool.eqb r rela then o else dispatch_find rest arch rela
   end.
-Definition dispatch (arch : string) (rela : bool) : string := dispatch_find gen_dispatch arch rela.
+Definition reloc_dispatch (arch : string) (rela : bool) : string := dispatch_find gen_dispatch arch rela.
 
 Definition family_of (outcome : string) : option string :=
   if String.prefix "use:" outcome then Some (String.substring 4 (String.length outcome - 4) outcome) else None.
@@ -152,6 +152,7 @@ Definition splice (s : list Z) (off : nat) (bs : list Z) : list Z :=
 (* struct_parse(value_struct, stream, stream_pos=r_offset): n bytes, unsigned, file byte order *)
 Definition read_value (le : bool) (n : nat) (stream : list Z) (off : Z) : res Z :=
   if off <? 0 then Err (EPy "ValueError")
+  else if 2 ^ 63 <=? off then Err (EPy "OverflowError")      (* BytesIO.seek: position must fit a ssize_t *)
   else match take n (zskipn off stream) with
        | Some (a, _) => Ok (int_decode le a)
        | None => Err EParse
@@ -166,7 +167,7 @@ Definition do_apply_relocation (le is64 : bool) (em : Z) (nsyms : Z) (symval : Z
   do reloc_type <- getf reloc "r_info_type";
   let arch := machine_arch em in
   let rela := has_field reloc "r_addend" in              (* Relocation.is_RELA *)
-  let outcome := dispatch arch rela in
+  let outcome := reloc_dispatch arch rela in
   match family_of outcome with
   | None => Err EReloc                                   (* 'Unexpected REL[A] relocation' / recipe is None *)
   | Some fam =>
